@@ -553,6 +553,9 @@ func genEmit(t *rapid.T) Emit {
 			e.Code = 0 // an application code like any other: the member "code" is mandatory all the same
 		}
 		e.Message = genText(t, "msg", 1)
+		if rapid.IntRange(0, 7).Draw(t, "nomsg") == 0 {
+			e.Message = "" // an error without a message is written without the member, and read back as such
+		}
 	}
 	e.Logger = (e.Via == "response" || e.Via == "errresponse" || (e.Via == "cbreply" && e.Code != 0)) && rapid.IntRange(0, 2).Draw(t, "logger") == 0
 	return e
